@@ -185,7 +185,7 @@ pub fn run(ctx: &mut Ctx, model: &mut Model) {
             let params = S2kParams::Cfb { sym_alg: SymmetricKeyAlgorithm::from(sym), s2k: to_rpgp(&spec), iv: iv.clone().into() };
             let real = key.lock(&pw, params.clone());
             ctx.stat(&format!("seckey.cfb:v{ver}:tag{tag}:{}", if real.is_ok() { "ok" } else { "refused" }));
-            let args = format!("sym={sym} {} pw={} iv={} raw={}", spec_args(&spec), hx(&pw), hx(&iv), hx(&raw));
+            let args = format!("ver={ver} sym={sym} {} pw={} iv={} raw={}", spec_args(&spec), hx(&pw), hx(&iv), hx(&raw));
             let want = rfc::seckey_cfb(sym, &spec, &pw, &iv, &raw);
             if let Ok(b) = &real {
                 ctx.oracle("seckey_cfb_rfc_bytes", "PlainSecretParams::encrypt (S2kParams::Cfb)", &args, want.as_ref().ok() == Some(b), &hx(b));
